@@ -167,10 +167,17 @@ class LokiStringifyMapper(StringifyMapper):
         kwargs['force_parens_around'] = (pmbl.FloorDiv, pmbl.Remainder)
         factors = [self.rec_with_force_parens_around(expr.children[0], PREC_PRODUCT, *args, **kwargs)]
         kwargs['force_parens_around'] = (pmbl.Quotient, pmbl.FloorDiv, pmbl.Remainder)
-        factors += [
-            self.rec_with_force_parens_around(child, PREC_PRODUCT, *args, **kwargs)
-            for child in expr.children[1:]
-        ]
+        for child in expr.children[1:]:
+            factor = self.rec_with_force_parens_around(child, PREC_PRODUCT, *args, **kwargs)
+            # The same holds for a nested product that starts with a quotient: ``a*((b/c)*d)``
+            leading = child
+            while isinstance(leading, pmbl.Product) and leading.children and \
+                    not isinstance(leading, self.parenthesised_multiplicative_primitives):
+                leading = leading.children[0]
+            if leading is not child and isinstance(leading, pmbl.Quotient) and \
+                    not isinstance(leading, self.parenthesised_multiplicative_primitives):
+                factor = f'({factor})'
+            factors.append(factor)
         return self.parenthesize_if_needed(self.join("*", factors), enclosing_prec, PREC_PRODUCT)
 
     def map_quotient(self, expr, enclosing_prec, *args, **kwargs):
